@@ -438,6 +438,9 @@ def main(argv=None):
                 path = write_replay(o["name"], payload)
                 violations.append((o["name"], path, ""))
                 late_payloads.append((o["name"], payload))
+            elif confirmed is False and o["label"] == "uncaught-exception":
+                # the symbolic run raised but the native run at a model of the path returns: kit limitation
+                broken.append((o["contract"], ("crash", "symbolic execution raised although the native run returns: " + o["show"][:300])))
             elif confirmed is False:
                 # counter-model of the VC does not reproduce natively and sampling found nothing:
                 # spurious w.r.t. the abstraction of transcendental/stub atoms -> undecided, not an alarm
